@@ -45,9 +45,9 @@ chk('C05', MC,
     'Which programs the type checker rejects is NOT decided (rule kernels on typechecker.c not built); only that a rejection is never turned into an artifact.',
     'CBMC on the real drivers with symbolic phase outcomes (environment stubs + ghost flags)', 'DESIGN.md 4/C05, 10')
 chk('C06', MC,
-    'Driver gating only: in the real compile_file, a false result of the shadow-test phase gives non-zero status before transpilation, with no file written and no compiler run; a true result reaches transpilation - for every combination of the other phase outcomes.',
-    'How eval.c counts assertion failures (run_shadow_tests, AST_ASSERT) is NOT decided: the harness on real ASTs gave no verdict (attempts/shadow_gate.c).',
-    'CBMC on the real nanoc driver with symbolic phase outcomes', 'DESIGN.md 4/C06, 10')
+    'Two halves on real code: (a) driver gating - in the real compile_file, a false result of the shadow-test phase gives non-zero status before transpilation, with no file written and no compiler run, a true result reaches transpilation, for every combination of the other phase outcomes; (b) the shadow runner - the real eval.c run_shadow_tests / eval_statement executes 1-2 shadow blocks of 1-2 assert statements (optionally nested in if, optionally after a for/while loop that breaks or continues) whose outcomes are symbolic, and returns true iff every assertion held, for every outcome vector. Counterexamples are replayed on the real nanoc.',
+    'Assert conditions are literals with symbolic truth values (condition evaluation is C03); user calls/let/set in shadow bodies, extern skipping, the missing-shadow diagnostic and the JSON report are outside. eval.c is compiled with -Dunion=struct (CBMC does not track pointers stored in unions).',
+    'CBMC on the real nanoc driver with symbolic phase outcomes + on the real shadow runner with symbolic assertion outcomes', 'DESIGN.md 4/C06, 10.9')
 chk('C15', MC,
     'CBMC on the real cop_protocol.c + heap.c: every transferable value shape (scalars, strings, arrays incl. nested) with ALL contents survives serialize->deserialize bit for bit through a buffer of symbolic size; too-small buffers and truncated encodings are refused; read_all/write_all deliver exactly the bytes for every chunking.',
     'Strings <= 5 bytes, arrays <= 3 elements; the request path (8 KiB request buffer) and real FFI libraries are not decided (see evidence outside_claim).',
